@@ -105,8 +105,29 @@ func (g *c06Gen) relChain(depth int) []exprTok {
 	return append(ts, rhs...)
 }
 
+var c06MixStrs = []string{"10", " 10 ", "10.0", "007", "-3", "1e3", "0x10", "+5", "Inf", "NaN", "5.", "", " ", "abc", "10a", "a10", "1 0", "true", "9", "2.50"}
+
+// mixedCmp: a number (literal, group or chain) against a string or a boolean, either way round
+func (g *c06Gen) mixedCmp(depth int) []exprTok {
+	num := g.numChain(depth)
+	var other exprTok
+	if g.r.Intn(4) == 0 {
+		other = exprBool(g.r.Intn(2) == 0)
+	} else {
+		other = exprStr(g.pick(c06MixStrs))
+	}
+	op := exprOp(g.pick(append(append([]string{}, c06Rel...), c06Eq...)))
+	if g.r.Intn(2) == 0 {
+		return append(append(num, op), other)
+	}
+	return append([]exprTok{other, op}, num...)
+}
+
 // boolExpr: boolean typed expression
 func (g *c06Gen) boolExpr(depth int) []exprTok {
+	if g.r.Intn(6) == 0 {
+		return g.mixedCmp(depth)
+	}
 	switch g.r.Intn(5) {
 	case 0: // arith == arith
 		ts := g.numChain(depth)
@@ -211,6 +232,22 @@ func (c06) Gen(seed int64, tier string, emit func(any)) {
 		}
 	}
 
+	// mixed comparisons: number against numeric / padded / non-numeric strings and booleans
+	for _, n := range []string{"10", "2.5", "0"} {
+		for _, o := range append(append([]string{}, c06Rel...), c06Eq...) {
+			for _, st := range c06MixStrs {
+				st := st
+				emit(c06Case{c06Join(exprNum(n), exprTok{Op: o, W: 1}, exprTok{Str: &st, W: 1})})
+				emit(c06Case{c06Join(exprTok{Str: &st}, exprTok{Op: o, W: 1}, exprTok{Num: n, W: 1})})
+			}
+			for _, b := range []bool{true, false} {
+				b := b
+				emit(c06Case{c06Join(exprNum(n), exprTok{Op: o, W: 1}, exprTok{Bool: &b, W: 1})})
+				emit(c06Case{c06Join(exprTok{Bool: &b}, exprTok{Op: o, W: 1}, exprTok{Num: n, W: 1})})
+			}
+		}
+	}
+
 	r := rand.New(rand.NewSource(seed))
 	g := &c06Gen{r}
 	n := 1200
@@ -240,7 +277,7 @@ func (c06) Run(raw json.RawMessage) Result {
 	}
 	src := exprSource(c.Toks)
 	o := exprEval(src)
-	coq := coqlit.Record("c_toks", exprToksCoq(c.Toks), "c_obs", o.coq)
+	coq := coqlit.Record("c_toks", exprToksCoq(c.Toks), "c_orc", exprOracles(c.Toks), "c_obs", o.coq)
 	nops := exprCountOps(c.Toks)
 	class := "ops" + fmt.Sprint(min(nops, 9)/3*3) + "+/depth" + fmt.Sprint(exprDepth(c.Toks))
 	if o.Kind == 1 {
